@@ -12,6 +12,7 @@ use crate::bgp::message::notification::{
     OpenMessageSubcode,
 };
 use crate::bgp::message::open::{Capability, OpenBuilder};
+use crate::bgp::message::update::FourOctetAsns;
 use crate::bgp::message::{
     Message as BgpMsg, NotificationMessage, SessionConfig, UpdateMessage,
 };
@@ -972,6 +973,14 @@ impl<C: BgpConfig + Send> Session<C> {
                 };
                 self.send_open();
                 self.set_negotiated_config(negotiated.clone());
+                // We always advertise the four-octet capability ourselves
+                // (see send_open), so AS numbers are four octets wide iff
+                // the peer advertised it as well.
+                if let Some(conn) = self.connection.as_mut() {
+                    conn.session_config_mut().set_four_octet_asns(
+                        FourOctetAsns(open_msg.four_octet_capable())
+                    );
+                }
                 debug!(
                     "Negotiated: {}@{} id {:?}, hold time {}s",
                     negotiated.remote_asn,
@@ -1279,6 +1288,14 @@ impl<C: BgpConfig + Send> Session<C> {
 
 
                 self.set_negotiated_config(negotiated.clone());
+                // We always advertise the four-octet capability ourselves
+                // (see send_open), so AS numbers are four octets wide iff
+                // the peer advertised it as well.
+                if let Some(conn) = self.connection.as_mut() {
+                    conn.session_config_mut().set_four_octet_asns(
+                        FourOctetAsns(open_msg.four_octet_capable())
+                    );
+                }
                 let _ = self.channel.send(Message::SessionNegotiated(negotiated)).await;
 
                 //- sends a KEEPALIVE message, and
